@@ -62,6 +62,7 @@ def run(report):
     rebound_all, axioms_all = set(), set()
     new_demoted = {}
     slow = []
+    audit = {"functions": 0, "points": 0, "failures": [], "no_point": 0}
     for r in results:
         m = r["modname"]
         if r.get("crash"):
@@ -91,6 +92,11 @@ def run(report):
             for o in f.obs:
                 if o.verdict == PROVED and o.detail.startswith("domain="):
                     domains[o.detail] += 1
+            if f.audit is not None:
+                audit["functions"] += 1
+                audit["points"] += f.audit["accepted"]
+                audit["failures"] += f.audit["failures"]
+                audit["no_point"] += 1 if f.audit["accepted"] == 0 else 0
             if f.klass in ("proved", "refuted", "undecided", "fault"):
                 report.extend(f.obs)
                 if f.klass == "fault" and not f.obs:
@@ -114,6 +120,13 @@ def run(report):
                 reasons[_bucket(f.reason)] += 1
                 if f.bounded is not None:
                     new_demoted[f.qual] = {"class": "out_of_reach", "reason": f.reason[:300]}
+    if audit["functions"]:
+        report.add_bounded("audit of the proved functions: DECORATED function on real Quantities (random magnitudes x unit "
+                           "prefixes) must satisfy the law it was proved to satisfy (checks the C05/C07 'identity on SI "
+                           "values' rebinding and the generic summary)",
+                           f"{audit['points']} points over {audit['functions']} proved functions "
+                           f"({audit['no_point']} functions without an accepted point), residual <= {calc.REL_TOL:g} relative",
+                           audit["points"], not audit["failures"], audit["failures"])
     if generate:
         DEMOTED_FILE.write_text(json.dumps(dict(sorted(new_demoted.items())), indent=1) + "\n")
         print(f"[C02] wrote {DEMOTED_FILE} with {len(new_demoted)} entries")
